@@ -86,3 +86,22 @@ pub fn run(args: &monlib::Args, rep: &mut Report) {
     let n = args.budget(4_000, 120_000) / args.nshards.max(1);
     for _ in 0..n { session(&mut rng, &mut starts, rep); }
 }
+
+pub fn replay(case: &monlib::Value, rep: &mut Report) {
+    let strs = |v: &monlib::Value| -> Vec<String> { v.as_array().map(|a| a.iter().filter_map(|x| x.as_str().map(|s| s.to_string())).collect()).unwrap_or_default() };
+    let fen = case["fen"].as_str().map(|s| s.to_string());
+    let accepted = strs(&case["accepted"]);
+    let rejected = strs(&case["rejected"]);
+    let held = match position_of(&fen, &accepted) { Some(x) => x.0, None => { println!("replay: accepted list is not legal"); return; } };
+    let mut sess = InProc::new();
+    let _ = sess.send(&Gui::Position { fen: fen.clone(), moves: accepted.clone() });
+    let _ = sess.send(&Gui::Position { fen: fen.clone(), moves: rejected.clone() });
+    match search(&mut sess, None, &GoSpec::depth(1)) {
+        Ok(o) => {
+            let legal: Vec<String> = held.legal_moves().iter().map(|m| m.uci()).collect();
+            println!("held {} ; next go answered {:?}", held.to_fen(), o.best);
+            if o.best.as_ref().map_or(true, |b| !legal.contains(b)) { rep.violation("rejected-move-list-changed-the-engine-position", format!("{:?}", o.best), case.clone()); }
+        }
+        Err(e) => rep.violation("engine-died-after-rejected-position", e, case.clone()),
+    }
+}
